@@ -219,6 +219,7 @@ type analyzer struct {
 	fieldFuncs map[*types.Var][]*node
 	litsIn     map[string][]*node // enclosing function key -> literals
 	handlerLit []*node
+	handlerOf  map[*node]string // handler root -> "informer:<Resource>.<AddFunc|UpdateFunc|DeleteFunc>"
 	named      []*types.Named
 	ifaceCache map[string][]*node
 	unknown    []string
@@ -341,11 +342,25 @@ func (a *analyzer) index() {
 							continue
 						}
 						if isHandlers {
+							owner := "?"
+							for i := len(stack) - 1; i >= 0; i-- {
+								if fd, ok := stack[i].(*ast.FuncDecl); ok {
+									owner = strings.TrimSuffix(strings.TrimPrefix(fd.Name.Name, "create"), "Handlers")
+									break
+								}
+							}
+							hk := "?"
+							if id, ok := kv.Key.(*ast.Ident); ok {
+								hk = id.Name
+							}
+							name := "informer:" + owner + "." + hk
 							if fl, ok := kv.Value.(*ast.FuncLit); ok {
 								a.handlerLit = append(a.handlerLit, a.byLit[fl])
+								a.handlerOf[a.byLit[fl]] = name
 							} else {
 								for _, t := range a.funcValue(p, kv.Value) {
 									a.handlerLit = append(a.handlerLit, t)
+									a.handlerOf[t] = name
 								}
 							}
 						}
@@ -1441,6 +1456,12 @@ func (a *analyzer) objKey(p *packages.Package, se *ast.SelectorExpr) string {
 		return ""
 	}
 	k := "object:" + typeKey(owner) + "." + fv.Name()
+	// a field of the embedded ObjectMeta / TypeMeta reached through the resource keeps the resource type, so
+	// that the metadata of Ingresses is not the metadata of Secrets; reached through a bare *ObjectMeta the
+	// resource is unknown (generic key, matched against every resource below)
+	if outer := apiNamed(sel.Recv()); outer != nil && outer != owner {
+		k = "object:" + typeKey(outer) + "#" + owner.Obj().Name() + "." + fv.Name()
+	}
 	if _, ok := a.fieldKinds[k]; !ok {
 		switch fv.Type().Underlying().(type) {
 		case *types.Map:
@@ -2065,7 +2086,7 @@ func main() {
 	sort.Slice(pkgs, func(i, j int) bool { return pkgs[i].PkgPath < pkgs[j].PkgPath })
 	a := &analyzer{fset: pkgs[0].Fset, pkgs: pkgs, byFunc: map[*types.Func]*node{}, byLit: map[*ast.FuncLit]*node{},
 		byKey: map[string]*node{}, fieldFuncs: map[*types.Var][]*node{}, litsIn: map[string][]*node{},
-		ifaceCache: map[string][]*node{}, goConds: map[string][]string{}, unknown: []string{}, fieldKinds: map[string]string{}, summary: map[*node]map[mutFact]bool{}, retFresh: map[*node][]bool{}, entryLit: map[*node]bool{}, reachMemo: map[string]map[string]bool{}}
+		ifaceCache: map[string][]*node{}, goConds: map[string][]string{}, unknown: []string{}, fieldKinds: map[string]string{}, summary: map[*node]map[mutFact]bool{}, retFresh: map[*node][]bool{}, entryLit: map[*node]bool{}, handlerOf: map[*node]string{}, reachMemo: map[string]map[string]bool{}}
 	a.index()
 	for _, e := range entries {
 		for _, k := range e.LitsIn {
@@ -2093,8 +2114,38 @@ func main() {
 		Spans []span   `json:"spans"`
 	}
 	var eouts []entryOut
+	// every handler function registered with an informer is an entry point of its own: the informer of each
+	// resource kind runs its handlers on its own goroutine, and a finding about one handler must not hide a
+	// new access made by another
+	var specs []entrySpec
+	explicit := map[string][]*node{}
 	for _, e := range entries {
+		if !e.HandlerLits {
+			specs = append(specs, e)
+			continue
+		}
+		if len(a.handlerLit) == 0 {
+			a.unknown = append(a.unknown, "entry "+e.Name+": no ResourceEventHandlerFuncs literal found")
+		}
+		var names []string
+		for _, n := range a.handlerLit {
+			if n == nil {
+				continue
+			}
+			nm := a.handlerOf[n]
+			if _, ok := explicit[nm]; !ok {
+				names = append(names, nm)
+			}
+			explicit[nm] = append(explicit[nm], n)
+		}
+		sort.Strings(names)
+		for _, nm := range names {
+			specs = append(specs, entrySpec{Name: nm, Multi: true, What: e.What})
+		}
+	}
+	for _, e := range specs {
 		var roots []*node
+		roots = append(roots, explicit[e.Name]...)
 		for _, k := range e.Roots {
 			n := a.byKey[k]
 			if n == nil {
@@ -2108,12 +2159,6 @@ func main() {
 				a.unknown = append(a.unknown, "entry "+e.Name+": function "+trimKey(k)+" not found in the source")
 			}
 			roots = append(roots, a.litsIn[k]...)
-		}
-		if e.HandlerLits {
-			if len(a.handlerLit) == 0 {
-				a.unknown = append(a.unknown, "entry "+e.Name+": no ResourceEventHandlerFuncs literal found")
-			}
-			roots = append(roots, a.handlerLit...)
 		}
 		cond := ""
 		if e.CondFrom != "" {
@@ -2156,7 +2201,54 @@ func main() {
 		return k[:strings.LastIndex(k, ".")]
 	}
 	var expanded []string
-	for _, k := range col.order {
+	addRead := func(r *rowOut, wk string) {
+		rk := r.Entry + "|" + wk + "|false|" + r.Kind + "|" + lockset(r.Held).key()
+		nr := col.rows[rk]
+		if nr == nil {
+			nr = &rowOut{Entry: r.Entry, Multi: r.Multi, Cond: r.Cond, Field: wk, Write: false, Kind: r.Kind, Held: r.Held}
+			col.rows[rk] = nr
+			expanded = append(expanded, rk)
+		}
+		for _, st := range r.Sites {
+			dup := false
+			for _, s2 := range nr.Sites {
+				if s2.File == st.File && s2.Line == st.Line {
+					dup = true
+				}
+			}
+			if !dup && len(nr.Sites) < 12 {
+				nr.Sites = append(nr.Sites, st)
+			}
+		}
+	}
+	// "object:T#Meta.F" (typed) and "object:meta/v1.Meta.F" (resource unknown) denote overlapping memory
+	metaOf := func(k string) (outer, rest string) { // typed: ("T", "ObjectMeta.F"); generic: ("", "ObjectMeta.F")
+		k = strings.TrimPrefix(k, "object:")
+		if i := strings.Index(k, "#"); i >= 0 {
+			return k[:i], k[i+1:]
+		}
+		if strings.HasPrefix(k, "meta/v1.ObjectMeta.") || strings.HasPrefix(k, "meta/v1.TypeMeta.") {
+			return "", strings.TrimPrefix(k, "meta/v1.")
+		}
+		return "", ""
+	}
+	for _, k := range append([]string(nil), col.order...) {
+		r := col.rows[k]
+		if r.Write || !strings.HasPrefix(r.Field, "object:") {
+			continue
+		}
+		outer, rest := metaOf(r.Field)
+		if rest == "" {
+			continue
+		}
+		for wk := range writtenObj {
+			wo, wr := metaOf(wk)
+			if wr == rest && wk != r.Field && (outer == "" || wo == "") {
+				addRead(r, wk)
+			}
+		}
+	}
+	for _, k := range append([]string(nil), col.order...) {
 		r := col.rows[k]
 		if !strings.HasPrefix(r.Field, "object*:") {
 			continue
@@ -2164,25 +2256,13 @@ func main() {
 		tk := strings.TrimPrefix(r.Field, "object*:")
 		for wk := range writtenObj {
 			o := ownerOfKey(wk)
+			if i := strings.Index(o, "#"); i >= 0 {
+				o = o[:i]
+			}
 			if o == tk || a.reachKey(tk)[o] {
-				rk := r.Entry + "|" + wk + "|false|read|" + lockset(r.Held).key()
-				nr := col.rows[rk]
-				if nr == nil {
-					nr = &rowOut{Entry: r.Entry, Multi: r.Multi, Cond: r.Cond, Field: wk, Write: false, Kind: "read", Held: r.Held}
-					col.rows[rk] = nr
-					expanded = append(expanded, rk)
-				}
-				for _, st := range r.Sites {
-					dup := false
-					for _, s2 := range nr.Sites {
-						if s2.File == st.File && s2.Line == st.Line {
-							dup = true
-						}
-					}
-					if !dup && len(nr.Sites) < 12 {
-						nr.Sites = append(nr.Sites, st)
-					}
-				}
+				r2 := *r
+				r2.Kind = "read"
+				addRead(&r2, wk)
 			}
 		}
 	}
@@ -2205,6 +2285,90 @@ func main() {
 		}
 		r.Held = hs
 		rows = append(rows, r)
+	}
+	// informer handlers with the very same access summary are indistinguishable for the table: they are merged
+	// into one (multi) entry, so that the inventory stays readable; a handler that gains an access of its own
+	// leaves its group and shows up under its own name
+	{
+		sum := map[string][]string{}
+		for _, r := range rows {
+			if strings.HasPrefix(r.Entry, "informer:") {
+				sum[r.Entry] = append(sum[r.Entry], fmt.Sprintf("%s|%v|%s|%s", r.Field, r.Write, r.Kind, lockset(r.Held).key()))
+			}
+		}
+		for _, eo := range eouts {
+			if strings.HasPrefix(eo.Name, "informer:") {
+				if _, ok := sum[eo.Name]; !ok {
+					sum[eo.Name] = nil
+				}
+			}
+		}
+		groups := map[string][]string{}
+		for e, l := range sum {
+			sort.Strings(l)
+			k := strings.Join(l, ";")
+			groups[k] = append(groups[k], e)
+		}
+		rename := map[string]string{}
+		biggest, bigN := "", 1
+		for k, es := range groups {
+			sort.Strings(es)
+			if len(es) > bigN || (len(es) == bigN && bigN > 1 && es[0] < groups[biggest][0]) {
+				biggest, bigN = k, len(es)
+			}
+		}
+		for k, es := range groups {
+			if len(es) < 2 {
+				continue
+			}
+			name := es[0] + "&co"
+			if k == biggest {
+				name = "informer:enqueue-only"
+			}
+			for _, e := range es {
+				rename[e] = name
+			}
+		}
+		merged := map[string]*rowOut{}
+		var out []*rowOut
+		for _, r := range rows {
+			if nn, ok := rename[r.Entry]; ok {
+				r.Entry = nn
+			}
+			k := fmt.Sprintf("%s|%s|%v|%s|%s", r.Entry, r.Field, r.Write, r.Kind, lockset(r.Held).key())
+			if m := merged[k]; m != nil {
+				for _, st := range r.Sites {
+					dup := false
+					for _, s2 := range m.Sites {
+						if s2.File == st.File && s2.Line == st.Line {
+							dup = true
+						}
+					}
+					if !dup && len(m.Sites) < 24 {
+						m.Sites = append(m.Sites, st)
+					}
+				}
+				continue
+			}
+			merged[k] = r
+			out = append(out, r)
+		}
+		rows = out
+		var eo2 []entryOut
+		idx := map[string]int{}
+		for _, eo := range eouts {
+			if nn, ok := rename[eo.Name]; ok {
+				if i, seen := idx[nn]; seen {
+					eo2[i].Roots = append(eo2[i].Roots, eo.Roots...)
+					eo2[i].Spans = append(eo2[i].Spans, eo.Spans...)
+					continue
+				}
+				eo.Name = nn
+			}
+			idx[eo.Name] = len(eo2)
+			eo2 = append(eo2, eo)
+		}
+		eouts = eo2
 	}
 	sort.SliceStable(rows, func(i, j int) bool {
 		if rows[i].Entry != rows[j].Entry {
